@@ -126,6 +126,19 @@ def cases(tier, inst):
                             if n >= 7 and (base == "join" or form == "infer"):
                                 continue
                             yield (node, order, base, form, caching)
+    # two variables x, y; every node's condition is over x only, over y only or a comparison of both (all assignments
+    # of these kinds); conclusions name both variables; an `assignment` is a pair (x, y)
+    for n in range(1, (3 if tier == "quick" else 4) + 1):
+        for sh in binary_shapes(n):
+            node = label(sh, [0])
+            for kinds in itertools.product(("x", "y", "xy"), repeat=n):
+                if n == 4 and hash((sh, kinds)) % 3:
+                    continue
+                for base_binds in (True, False):
+                    if not base_binds and kinds[0] != "xy":
+                        continue         # the base condition itself names both variables, or an explicit comparison does
+                    for caching in ((True, False) if n <= 2 or tier == "thorough" else (True,)):
+                        yield ("kjoin", node, kinds, base_binds, caching)
     # branches whose condition joins a further variable z (several z per x, taking different nested branches)
     for n in range(2, (4 if tier == "quick" else 5) + 1):
         for sh in binary_shapes(n):
@@ -133,6 +146,74 @@ def cases(tier, inst):
             for kinds in kinds_for(node, n):
                 for caching in (True, False):
                     yield ("zjoin", node, kinds, caching)
+
+
+# ---------------------------------------------------------------- two variables, conditions over a subset of them
+def kcond(kind, j, x, y, inst):
+    if kind == "x":
+        return x.t[j] == inst.v(1)
+    if kind == "y":
+        return y.t[j] == inst.v(1)
+    return x.t[j] == y.t[j]
+
+
+def kval(kind, j, xv, yv):
+    """1 = the node's condition holds for the pair"""
+    if kind == "x":
+        return 1 if xv[j] == 1 else 2
+    if kind == "y":
+        return 1 if yv[j] == 1 else 2
+    return 1 if xv[j] == yv[j] else 2
+
+
+def build_ktree(node, kinds, x, y, views, inst):
+    i, ref, alt = node
+    Add(views, W.Made(a=x, b=inst.v(i + 1), c=y))
+    if ref is not None:
+        with refinement(kcond(kinds[ref[0]], ref[0], x, y, inst)):
+            build_ktree(ref, kinds, x, y, views, inst)
+    if alt is not None:
+        with alternative(kcond(kinds[alt[0]], alt[0], x, y, inst)):
+            build_ktree(alt, kinds, x, y, views, inst)
+
+
+def kjoin_make_and_eval_twice(case, inst):
+    _, node, kinds, base_binds, caching = case
+    n = size(node)
+
+    def body():
+        vals = list(itertools.product((1, 2), repeat=n))
+        xs = [W.Item(p=inst.v(1), t=tuple(inst.v(v) for v in val), tag="x" + "".join(map(str, val))) for val in vals]
+        ys = [W.Item(p=inst.v(1), t=tuple(inst.v(v) for v in val), tag="y" + "".join(map(str, val))) for val in vals]
+        exp = []
+        for xo, xv in zip(xs, vals):
+            for yo, yv in zip(ys, vals):
+                val = tuple(kval(kinds[j], j, xv, yv) for j in range(n))
+                for tag in rdr(node, val):
+                    exp.append(repr(("made", "Made", Q.norm(xo), Q.norm(inst.v(tag + 1)), Q.norm(yo))))
+        exp.sort()
+        try:
+            with symbolic_mode():
+                x, y = let(W.Item, xs), let(W.Item, ys)
+                views = let(W.View)
+                c0 = kcond(kinds[0], 0, x, y, inst)
+                if base_binds:
+                    # the base names both variables (a comparison that is true for every pair), then its own condition
+                    c0 = and_(x.p == y.p, c0)
+                q = an(entity(views, c0))
+            with rule_mode(q):
+                build_ktree(node, kinds, x, y, views, inst)
+        except Exception as e:
+            return [("build",) + exc_obs(e)], exp
+        out = []
+        for _ in range(2):
+            try:
+                out.append(sorted(repr(Q.norm(r)) for r in q.evaluate()))
+            except Exception as e:
+                out.append(exc_obs(e))
+        return out, exp
+
+    return run_isolated(body, caching=caching)
 
 
 def build_tree(node, x, y, views, order, inst, inner=None):
@@ -344,6 +425,11 @@ def run_case(case, inst):
         n = size(node)
         out, exp = join_make_and_eval_twice(case, inst)
         order, base, form = "ra", "zjoin:" + "".join(kinds), "an"
+    elif case[0] == "kjoin":
+        _, node, kinds, base_binds, caching = case
+        n = size(node)
+        out, exp = kjoin_make_and_eval_twice(case, inst)
+        order, base, form = "ra", "kjoin:" + "/".join(kinds) + ("+bind" if base_binds else ""), "an"
     else:
         node, order, base, form, caching = case
         n = size(node)
@@ -418,6 +504,15 @@ def show(node, inst, depth=1, ycond="", order="ra", inner=None):
 
 
 def describe(case, inst):
+    if case[0] == "kjoin":
+        _, node, kinds, base_binds, caching = case
+        return (f"{'enable' if caching else 'disable'}_caching()\n# rule tree {node} (node = (index, refinement, alternative)); "
+                f"node kinds {kinds}: 'x' = condition x.t[i] == 1, 'y' = y.t[i] == 1, 'xy' = x.t[i] == y.t[i];\n"
+                "# xs, ys = one Item(p=1, t=val) per valuation in {1,2}^n each; q = an(entity(views := let(View), "
+                + ("and_(x.p == y.p, <condition of node 0>)" if base_binds else "<condition of node 0>") + "));\n"
+                "# nested `with refinement(<cond>)` / `with alternative(<cond>)` blocks as in the tree, conclusions "
+                "Add(views, Made(a=x, b=i+1, c=y))\n"
+                "rows1 = list(q.evaluate()); rows2 = list(q.evaluate())   # expected: ripple-down semantics per pair (x, y)")
     if case[0] == "zjoin":
         _, node, kinds, caching = case
         return (f"{'enable' if caching else 'disable'}_caching()\n# rule tree {node} (node = (index, refinement, alternative)); "
